@@ -6,7 +6,7 @@ from checklib import *
 PROPS = {
   'C01': {'families': [('chess', 400, 24000), ('edges', 1, 200000), ('proc', 8, 12)]},
   'C02': {'families': [('chess', 400, 24000)]},
-  'C03': {'families': [('chess', 400, 24000), ('order', 300, 20000)]},
+  'C03': {'families': [('chess', 400, 24000), ('order', 300, 20000), ('dialog', 60, 3000)]},
   'C09': {'families': [('chess', 400, 24000), ('hashdiff', 300, 30000)]},
   'C10': {'families': [('chess', 400, 24000), ('edges', 1, 200000)]},
   'C11': {'families': [('chess', 300, 12000), ('fenfuzz', 6000, 1000000)]},
@@ -56,6 +56,7 @@ def run_property(prop, tier):
     wdir = os.path.join(WORK, prop)
     os.makedirs(wdir, exist_ok=True)
     broken = []      # theorem / correspondence names that no longer check
+    untranslated, alt_keys, boost = [], {}, 1
     prep = prepare(log)
     obl = {'theorems': [], 'ok': True, 'failed': [], 'axioms': {}}
     results = []     # (family, relevant, distinct, ood, mismatches, stats)
@@ -63,10 +64,14 @@ def run_property(prop, tier):
     if not prep['ok']:
         broken.append('prepare:' + prep['stage'])
     else:
-        if prep.get('translator'):
-            # a function left the translatable subset (or vanished): the regenerated tie cannot be established
-            broken.append('translator:' + prep['translator'].strip().split('\n')[0][:200])
-        obl = obligations(prop, tier, log)
+        # functions that left the translatable subset (or vanished): their regenerated definitions are stubs; the properties
+        # that use them go through their second route / lose a T1 tie (see checklib.obligations)
+        untranslated = sorted(set(re.findall(r'untranslatable: ([A-Za-z0-9_.]+):', prep.get('translator') or '')))
+        obl = obligations(prop, tier, log, untranslated)
+        alt_keys = dict(obl.get('alt_keys') or {})
+        if 'search.calculateTime' in untranslated:
+            alt_keys['budget'] = 'budgeth'
+        boost = 3 if (obl.get('ties_lost') or obl.get('route') == 'fallback') else 1
         if not obl['ok']:
             broken += ['theorem:' + n for n in obl.get('failed', [])] or ['theorem-build:' + prop]
             broken += ['forbidden:%s:%s' % b for b in obl.get('forbidden', [])]
@@ -79,7 +84,7 @@ def run_property(prop, tier):
             if lines:
                 jobs.append(('regress', None, lines))
         for fam, nq, nt in cfg['families']:
-            n = nq if tier == 'quick' else nt
+            n = (nq if tier == 'quick' else nt) * (boost if fam not in ('proc', 'edges', 'timed', 'conc', 'dialog') else 1)
             for ci, cn in enumerate(chunks_for(n if fam != "edges" else 1, tier)):
                 jobs.append((fam, [fam, str(seed * 1000 + ci), str(cn), tier], None))
 
@@ -87,7 +92,7 @@ def run_property(prop, tier):
             fam, gen_args, lines = job
             tag = fam + ('_' + gen_args[1] if gen_args else '')
             ops, go, lean, stats = run_ops(wdir, tag, gen_args=gen_args, ops_lines=lines)
-            rel, dist, ood, mism = compare(prop, ops, go, lean)
+            rel, dist, ood, mism = compare(prop, ops, go, lean, alt_keys)
             smp = []
             for i, op in enumerate(ops):
                 kind = op.split(' ', 1)[0]
@@ -97,13 +102,33 @@ def run_property(prop, tier):
                         break
             return fam, rel, dist, ood, mism, stats, smp, len(ops)
 
+        crashes = []
+
+        def do_safe(job):
+            try:
+                return do(job)
+            except HarnessCrash as e:
+                return e
+
         try:
             with ThreadPoolExecutor(max_workers=NCPU if tier == 'thorough' else 2) as ex:
-                for r in ex.map(do, jobs):
+                for r in ex.map(do_safe, jobs):
+                    if isinstance(r, HarnessCrash):
+                        crashes.append(r)
+                        continue
                     results.append(r)
                     samples += r[6]
-        except Exception as e:  # harness or driver crashed: the correspondence cannot be established
+        except Exception as e:  # harness or driver failed otherwise: the correspondence cannot be established
             broken.append('correspondence-run:' + str(e)[:300])
+        for c in crashes:
+            kind = (c.op or '').split(' ', 1)[0]
+            relevant = any(prop in cs or prop in ss for cs, ss in KEYS.get(kind, {}).values()) or any(prop in ps for ps in ASSERT.get(kind, {}).values())
+            if c.confirmed and relevant:
+                # the engine kills the process on this operation, alone and repeatably: a failing input for every property
+                # that is judged on this kind of operation (none of them allows the engine to die)
+                results.append((kind, 1, 1, 0, [{'kind': 'assert', 'op': c.op, 'key': 'process-died', 'go': c.output[-1500:], 'lean': ''}], {}, [], 1))
+            else:
+                broken.append('correspondence-run:' + str(c)[:300])
 
     mism = [m for r in results for m in r[4]]
     counter = [m for m in mism if m['kind'] in ('spec', 'assert')]
@@ -176,6 +201,10 @@ def run_property(prop, tier):
         'input_distribution': stats,
         'samples': samples[:6],
         'broken': broken,
+        'route': obl.get('route', 'primary'),
+        'primary_route_failed': obl.get('primary_failed', []),
+        'ties_lost': [{'module': t['module'], 'theorems': t['theorems']} for t in obl.get('ties_lost', [])],
+        'untranslated': untranslated,
       },
       'assumptions': TRUSTED_BASE,
       'wall_s': round(time.time() - t0, 2),
@@ -203,7 +232,13 @@ def replay(path):
         print(json.dumps(rec, indent=1))
         return 0
     wdir = os.path.join(WORK, 'replay')
-    ops, go, lean, _ = run_ops(wdir, 'replay', ops_lines=[rec['input']])
+    try:
+        ops, go, lean, _ = run_ops(wdir, 'replay', ops_lines=[rec['input']])
+    except HarnessCrash as e:
+        print('input  :', decode_op(rec['input']))
+        print('MISMATCH process-died: the engine killed the process on this operation')
+        print(e.output[-1500:])
+        return 1
     print('input  :', decode_op(ops[0]))
     print('go     :', go[0])
     print('lean   :', lean[0])
